@@ -1,7 +1,7 @@
 (* C09 — correspondence / property evaluation on what was observed on the
    implementation (router.NewRouter() + httptest).  Executable only. *)
 From Coq Require Import List String Ascii Bool ZArith.
-From GZ Require Export C09.Model C09.Spec.
+From GZ Require Export C09.Model C09.Spec C09.ServerModel.
 Import ListNotations.
 Open Scope string_scope.
 
@@ -11,7 +11,7 @@ Record req := mkReq
     qclean : string;      (* path.Clean(qp) as computed by Go *)
     qres : response }.    (* Allow / Vars come sorted; compared as sets *)
 
-Record case := mkCase
+Record rcase := mkCase
   { cnf : bool; cna : bool;          (* custom not-found / not-allowed handler installed *)
     cregs : list reg;                (* Handle calls, handler = index of the call *)
     cregobs : list reg_result;       (* what each Handle returned *)
@@ -71,7 +71,7 @@ Fixpoint forallb2 {A B} (f : A -> B -> bool) (a : list A) (b : list B) : bool :=
 
 (* ---- the trie model reproduces what the implementation did (a response is
    reproduced when it is one of those Go's map iteration order allows) *)
-Definition agrees (c : case) : bool :=
+Definition r_agrees (c : rcase) : bool :=
   let r0 := new_router (cnf c) (cna c) in
   let r := build r0 (cregs c) in
   list_eqb reg_result_eqb (build_results r0 (cregs c)) (cregobs c)
@@ -115,19 +115,126 @@ Definition response_ok (T : table) (nf na : bool) (q : req) : bool :=
   end.
 
 (* does the accepted table satisfy the property's side condition? *)
-Definition in_scope (c : case) : bool := one_var_name_per_position (table_of (cregs c)).
+Definition in_scope (c : rcase) : bool := one_var_name_per_position (table_of (cregs c)).
 
 (* The property's quantifier is "route tables that use one variable name per position":
    tables outside it are compared with the model ([agrees]) but are not property failures. *)
-Definition prop_ok (c : case) : bool :=
+Definition r_prop_ok (c : rcase) : bool :=
   let T := table_of (cregs c) in
   if in_scope c then
     list_eqb reg_result_eqb (reg_results [] (cregs c)) (cregobs c)
     && forallb (response_ok T (cnf c) (cna c)) (creqs c)
   else true.
 
-Definition model_obs (c : case) :=
+Definition r_model_obs (c : rcase) :=
   let r0 := new_router (cnf c) (cna c) in
   let r := build r0 (cregs c) in
   (build_results r0 (cregs c),
    map (fun q => (clean_string (qp q), serve_allowed r (qm q) (qp q))) (creqs c)).
+
+(* ================================================================ server level
+   the same route tables registered through rest.Server (AddRoutes with prefixes,
+   groups, middlewares, custom 404/405 handlers, CORS) and bound by Start *)
+
+Record sreq := mkSReq
+  { sqm : string; sqp : string;
+    sqres : sresponse;
+    sqmws : list Z }.        (* middleware tags the handler saw, outermost first *)
+
+Inductive start_obs := ObsStarted | ObsFailed (e : reg_result).
+
+Record scase := mkSCase
+  { snf : bool; sna : bool; scors : bool; suse : bool;
+    sgroups : list group;
+    sstart : start_obs;                       (* how Start ended *)
+    sroutes : list (string * string);         (* Server.Routes() *)
+    sreqs : list sreq }.
+
+Definition sresponse_eqb (a b : sresponse) : bool :=
+  match a, b with
+  | SResp x, SResp y => response_eqb x y
+  | SCors204, SCors204 => true
+  | _, _ => false
+  end.
+
+(* Routes() lists the prefixed paths (compared exactly when rooted) *)
+Definition route_agrees (g : reg) (o : string * string) : bool :=
+  (rmethod g =? fst o) &&
+  match clean_path (rpath g) with
+  | Some _ => rpath g =? snd o
+  | None => match snd o with String c _ => negb (Ascii.eqb c slash) | EmptyString => true end
+  end.
+
+Definition mws_ok (use : bool) (gs : list group) (q : sreq) : bool :=
+  match sqres q with
+  | SResp (RHandler h _) => list_eqb Z.eqb (sqmws q) (mw_expected use gs h)
+  | _ => match sqmws q with [] => true | _ => false end
+  end.
+
+Definition s_agrees (s : scase) : bool :=
+  forallb2 route_agrees (server_routes (sgroups s)) (sroutes s)
+  && match server_start (snf s) (sna s) (scors s) (sgroups s), sstart s with
+     | StartFailed e, ObsFailed e' => reg_result_eqb e e'
+     | Started r, ObsStarted =>
+       forallb (fun q => existsb (sresponse_eqb (sqres q)) (sserve_allowed (scors s) r (sqm q) (sqp q))
+                         && mws_ok (suse s) (sgroups s) q) (sreqs s)
+     | _, _ => false
+     end.
+
+(* the property, from the LIST of prefixed routes.  Registration at server level: Start dies
+   with the first error the list prescribes, and only then.  With rest.WithCors() the 405/Allow
+   clause and dispatch of OPTIONS routes are replaced by what the option documents (204 for
+   every OPTIONS request, 404 for a would-be 405): those answers are accepted only in exactly
+   those situations. *)
+Definition first_error (l : list reg_result) : option reg_result :=
+  find (fun e => negb (reg_result_eqb e RegOk)) l.
+
+Definition sresponse_ok (T : table) (nf na cors : bool) (q : sreq) : bool :=
+  let rq := mkReq (sqm q) (sqp q) "" RNotFound in
+  if cors then
+    if sqm q =? "OPTIONS" then sresponse_eqb (sqres q) SCors204
+    else match sqres q with
+         | SResp (RHandler h ps) => response_ok T nf true (mkReq (sqm q) (sqp q) "" (RHandler h ps))
+         | SResp RNotFound =>
+           (* a real 404 (default handler), or the CORS answer to a would-be 405 *)
+           response_ok T nf true (mkReq (sqm q) (sqp q) "" RNotFound)
+           || response_ok T nf true (mkReq (sqm q) (sqp q) "" RNotAllowedCustom)
+         | SResp RNotFoundCustom => response_ok T nf true (mkReq (sqm q) (sqp q) "" RNotFoundCustom)
+         | _ => false
+         end
+  else match sqres q with
+       | SResp r => response_ok T nf na (mkReq (sqm q) (sqp q) "" r)
+       | SCors204 => false
+       end.
+
+Definition s_prop_ok (s : scase) : bool :=
+  let regs := server_routes (sgroups s) in
+  let T := table_of regs in
+  if one_var_name_per_position T then
+    match first_error (reg_results [] regs), sstart s with
+    | Some e, ObsFailed e' => reg_result_eqb e e'
+    | None, ObsStarted =>
+      forallb (fun q => sresponse_ok T (snf s) (sna s) (scors s) q && mws_ok (suse s) (sgroups s) q) (sreqs s)
+    | _, _ => false
+    end
+  else true.
+
+Definition s_model_obs (s : scase) :=
+  (server_routes (sgroups s),
+   match server_start (snf s) (sna s) (scors s) (sgroups s) with
+   | StartFailed e => (Some e, [])
+   | Started r => (None, map (fun q => sserve_allowed (scors s) r (sqm q) (sqp q)) (sreqs s))
+   end).
+
+(* ================================================================ both kinds *)
+Inductive case := CRouter (c : rcase) | CServer (s : scase).
+
+Definition agrees (c : case) : bool :=
+  match c with CRouter c => r_agrees c | CServer s => s_agrees s end.
+Definition prop_ok (c : case) : bool :=
+  match c with CRouter c => r_prop_ok c | CServer s => s_prop_ok s end.
+Definition model_obs (c : case) :=
+  match c with
+  | CRouter c => (Some (r_model_obs c), None)
+  | CServer s => (None, Some (s_model_obs s))
+  end.
